@@ -3,7 +3,8 @@ import ZChain.Model.AlgWorld
 import ZChain.Model.Notarize
 /-! Line driver for C31 (notarization): the crypto world's keys/signatures plus one miner node:
 `miners <k>` (one magic block = keys n0..n<k-1>, threshold ceil(66%), blocks in round 1) |
-`miners2 <j,…> <j,…>` (two magic blocks, starting rounds 0 and 100, with the given miner sets; slot 0 = round 50, slot 1 = round 200) |
+`miners2 <j,…> <j,…> [<r0> <r1>]` (two magic blocks, starting rounds 0 and 100, with the given miner sets; slot 0 = round r0
+(default 50), slot 1 = round r1 (default 200); answers which magic block is in force for each: `ok mb=<i0>,<i1>`) |
 `block <name> <gen> <h> [slot]` | `attach <name> <who:sigidx[:u],…|->` (`:u` = the signature in upper-case hex) |
 `propose <name>` | `know <name>` | `ticket <name> <who>:<sigidx>` | `notarization <name> <who:sigidx,…>` | `nblock <name>` |
 `status <name>`. `who` is `n<j>` (miner j) or `x<j>` (a foreign id). The message token of a block's hash is `blk-<name>`. -/
@@ -64,22 +65,29 @@ def step (s : St) (ws : List String) : St × String :=
       match (List.range k).mapM (fun j => key? s.w s!"n{j}") with
       | some sks =>
         if k = 0 then (s, "bad-op") else
-        ({ s with nd := some { pks := sks.map pubKey, pools := [List.range k], thresholds := [(k * 66 + 99) / 100],
+        ({ s with nd := some { pks := sks.map pubKey, mbs := [(0, List.range k)], rounds := [1], pct := 66,
                                blocks := [], store := [], roundNotarized := [], complete := [] },
                   names := [], gens := [], slots := [], attached := [] }, "ok")
       | none => (s, "bad-op")
     | none => (s, "bad-op")
-  | ["miners2", l0, l1] => match natList? l0, natList? l1 with
+  | "miners2" :: l0 :: l1 :: rest => match natList? l0, natList? l1 with
     | some l0, some l1 =>
+      let rs : Option (Nat × Nat) := match rest with
+        | [] => some (50, 200)
+        | [a, b] => match a.toNat?, b.toNat? with
+          | some a, some b => some (a, b)
+          | _, _ => none
+        | _ => none
       let top := (l0 ++ l1).foldl max 0
-      match (List.range (top + 1)).mapM (fun j => key? s.w s!"n{j}") with
-      | some sks =>
-        if l0.isEmpty ∨ l1.isEmpty ∨ !l0.contains 0 ∨ l0.eraseDups.length != l0.length ∨ l1.eraseDups.length != l1.length then (s, "bad-op") else
-        ({ s with nd := some { pks := sks.map pubKey, pools := [l0, l1],
-                               thresholds := [(l0.length * 66 + 99) / 100, (l1.length * 66 + 99) / 100],
+      match rs, (List.range (top + 1)).mapM (fun j => key? s.w s!"n{j}") with
+      | some (r0, r1), some sks =>
+        if l0.isEmpty ∨ l1.isEmpty ∨ !l0.contains 0 ∨ l0.eraseDups.length != l0.length ∨ l1.eraseDups.length != l1.length
+            ∨ r0 < 2 ∨ r1 ≤ r0 + 1 then (s, "bad-op") else
+        let mbs := [(0, l0), (100, l1)]
+        ({ s with nd := some { pks := sks.map pubKey, mbs := mbs, rounds := [r0, r1], pct := 66,
                                blocks := [], store := [], roundNotarized := [], complete := [] },
-                  names := [], gens := [], slots := [], attached := [] }, "ok")
-      | none => (s, "bad-op")
+                  names := [], gens := [], slots := [], attached := [] }, s!"ok mb={mbOf mbs r0},{mbOf mbs r1}")
+      | _, _ => (s, "bad-op")
     | _, _ => (s, "bad-op")
   | "block" :: n :: g :: h :: rest => match s.nd, g.toNat?, Fr.parse? h with
     | some nd, some g, some h =>
@@ -89,7 +97,7 @@ def step (s : St) (ws : List String) : St × String :=
         | _ => none
       match sl with
       | some sl =>
-        if sl ≥ nd.pools.length ∨ !(nd.pools.getD sl []).contains g ∨ (blockId? s n).isSome then (s, "bad-op") else
+        if sl ≥ nd.rounds.length ∨ !(nd.pool sl).contains g ∨ (blockId? s n).isSome then (s, "bad-op") else
         ({ s with names := s.names ++ [(n, s.names.length)], gens := s.gens ++ [(n, g)], slots := s.slots ++ [(n, sl)],
                   w := { s.w with msgs := (s.w.msgs.filter (·.1 != s!"blk-{n}")) ++ [(s!"blk-{n}", h)] } }, "ok")
       | none => (s, "bad-op")
